@@ -10,6 +10,7 @@ the set-up to look for mapping residue."""
 import json
 import os
 import shlex
+import shutil
 import tempfile
 
 import syslog
@@ -254,11 +255,12 @@ def run(ck, replay=None):
     exes = [exe]
     if not quick:
         exes.append(os.path.join(build(release=True), "h_uring"))
+    tmp = tempfile.mkdtemp(prefix="c18-", dir="/tmp")
     jobs = []
     for i, (b, e, n) in enumerate(plan):
         x = exes[i % len(exes)]
         argv = [x, "twin", str(ck.seed * 7919 + i), str(n), "%x" % b, str(e)]
-        jobs.append(dict(argv=argv, timeout=1500 if quick else 7200))
+        jobs.append(dict(argv=argv, timeout=1500 if quick else 7200, env=vlib.base_env({"C18_TMP": tmp})))
     # set-up / drop cycles under the tracer (all accepted sets, including the ones no operation can run on)
     rnd = vlib.rng(ck.seed, "c18-cycles")
     cyc_sets = list(accepted)
@@ -267,7 +269,6 @@ def run(ck, replay=None):
                         B["SINGLE_ISSUER"] | B["DEFER_TASKRUN"]) if b in set(accepted)]
     nshard = 4 if quick else 16
     per = 15 if quick else 3 * max(1, (len(accepted) + nshard - 1) // nshard)
-    tmp = tempfile.mkdtemp(prefix="c18-", dir="/tmp")
     cjobs = []
     for s in range(nshard):
         sets = (head + cyc_sets)[s::nshard] if quick else cyc_sets[s::nshard] + head
@@ -297,10 +298,7 @@ def run(ck, replay=None):
             os.unlink(log)
         except OSError:
             pass
-    try:
-        os.rmdir(tmp)
-    except OSError:
-        pass
+    shutil.rmtree(tmp, ignore_errors=True)
     if total_cycles == 0:
         ck.note_inconclusive("no set-up/drop cycle was traced")
     ck.exhaustive = False
